@@ -240,8 +240,14 @@ func c26Oracle(in string) eng.Res {
 	pre = nil
 	walk(g1)
 	post = pre
+	var deferredClass, deferredDetail string
 	for _, b := range post {
 		if class, detail = roundTrip("after-layout", b); class != "" {
+			if strings.HasPrefix(class, "sequence-lifeline-destination-lost") {
+				// reported only if nothing else is wrong, so the protocol stage still runs on these diagrams
+				deferredClass, deferredDetail = class, detail
+				continue
+			}
 			return eng.Bad(class, detail)
 		}
 	}
@@ -265,9 +271,12 @@ func c26Oracle(in string) eng.Res {
 		}
 		if !same {
 			paths := u.JSONDiffPaths(string(j1), string(j2))
-			return eng.Bad("protocol-result-differs:"+engine+":"+normPaths(paths), fmt.Sprintf("exported diagram differs at %v and the rendered SVG differs too\n%s", paths, u.FirstDiff(string(j1), string(j2))))
+			return eng.Bad("protocol-result-differs:"+normPaths(paths), fmt.Sprintf("exported diagram differs at %v and the rendered SVG differs too\n%s", paths, u.FirstDiff(string(j1), string(j2))))
 		}
 		outcome += "|json-differs-svg-equal"
+	}
+	if deferredClass != "" {
+		return eng.Bad(deferredClass, deferredDetail)
 	}
 	nobj := 0
 	for _, b := range post {
@@ -326,8 +335,9 @@ func init() {
 				}
 			})
 			if !w.Thorough() {
-				chunked(w, "FLserde=2:dagre", 8, func(emit func(string, string)) {
-					forPrograms("", serde, 2, func(src string) { emit("layout", mkIn("dagre", src)) })
+				pairs := cat(flSerde, flNames, small)
+				chunked(w, "FLserde'=2:dagre", 6, func(emit func(string, string)) {
+					forPrograms("", pairs, 2, func(src string) { emit("layout", mkIn("dagre", src)) })
 				})
 			} else {
 				chunked(w, "FLfull+FLserde=2:dagre", 16, func(emit func(string, string)) {
